@@ -100,6 +100,7 @@ def rule_ta(ctx):
 def rule_status(ctx):
     b = ctx.body('store::Store::status')
     seen = set()
+    from lib.tables import expand_helper_conds
     for p in enumerate_paths(b, ctx.facts):
         cm = p.cond_map()
         rd = [labs for v, labs in cm.items() if re.match(r'^call:StoredStatus::read\(', v) and '@' not in v.split(')')[-1]]
